@@ -62,6 +62,118 @@ def _z3_check(hyps, goal, timeout_ms, tactic=None):
     return 'unknown', None
 
 
+def _flatten_and(f, out):
+    if z3.is_and(f):
+        for ch in f.children():
+            _flatten_and(ch, out)
+    else:
+        out.append(f)
+
+
+def _occurs(v, t):
+    todo, seen = [t], set()
+    while todo:
+        x = todo.pop()
+        i = x.get_id()
+        if i in seen:
+            continue
+        seen.add(i)
+        if x.eq(v):
+            return True
+        todo.extend(x.children())
+    return False
+
+
+def ring_subst_decides(hyps, goal, max_defs=200):
+    """`ring-subst` back end: definitional equalities  const == term  among the hypotheses are
+    substituted away; the goal (a conjunction of equalities) is proved if every conjunct is then
+    a polynomial identity or a rational linear combination of the remaining hypothesis
+    equalities (as polynomials).  Sound: only consequences of the hypotheses are derived."""
+    conj = []
+    for h in hyps:
+        _flatten_and(h, conj)
+    goals = []
+    _flatten_and(goal, goals)
+    if not goals or not all(z3.is_eq(g) and z3.is_arith(g.children()[0]) for g in goals):
+        return False
+    eqs = [h for h in conj if z3.is_eq(h) and z3.is_arith(h.children()[0])]
+    defs, rest = [], []
+    for e in eqs:
+        a, b = e.children()
+        done = False
+        for v, t in ((a, b), (b, a)):
+            if z3.is_const(v) and v.decl().kind() == z3.Z3_OP_UNINTERPRETED and not _occurs(v, t) \
+                    and not any(v.eq(d[0]) for d in defs):
+                defs.append((v, t))
+                done = True
+                break
+        if not done:
+            rest.append(e)
+    if len(defs) > max_defs:
+        return False
+
+    def sub(t):
+        for _ in range(len(defs) + 1):
+            t2 = z3.substitute(t, *defs) if defs else t
+            if t2.eq(t):
+                break
+            t = t2
+        return t
+    try:
+        basis = []
+        for e in rest:
+            a, b = e.children()
+            p = ring.add(ring.from_z3(sub(a)), ring.scale(ring.from_z3(sub(b)), -1))
+            if p:
+                basis.append(p)
+        # a definition whose right-hand side mentions another defined constant is applied
+        # through `sub`; definitions themselves add nothing to the span
+        for g in goals:
+            a, b = g.children()
+            p = ring.add(ring.from_z3(sub(a)), ring.scale(ring.from_z3(sub(b)), -1))
+            if p and not _in_span(p, basis):
+                return False
+        return True
+    except ring.TooBig:
+        return False
+
+
+def _in_span(p, basis):
+    """is the polynomial p a rational linear combination of the polynomials in basis?"""
+    if not basis:
+        return False
+    monos = sorted(set(m for q in basis + [p] for m in q), key=repr)
+    idx = dict((m, i) for i, m in enumerate(monos))
+    from fractions import Fraction as F
+    rows = []
+    for q in basis:
+        r = [F(0)] * len(monos)
+        for m, cf in q.items():
+            r[idx[m]] = cf
+        rows.append(r)
+    tgt = [F(0)] * len(monos)
+    for m, cf in p.items():
+        tgt[idx[m]] = cf
+    # eliminate
+    piv = []
+    for r in rows:
+        for (pc, pr) in piv:
+            if r[pc] != 0:
+                k = r[pc]
+                r = [x - k * y for x, y in zip(r, pr)]
+        nz = next((i for i, x in enumerate(r) if x != 0), None)
+        if nz is None:
+            continue
+        k = r[nz]
+        r = [x / k for x in r]
+        piv.append((nz, r))
+    for (pc, pr) in piv:
+        if tgt[pc] != 0:
+            k = tgt[pc]
+            tgt = [x - k * y for x, y in zip(tgt, pr)]
+    return all(x == 0 for x in tgt)
+
+
 def cvc5_check(smt2, timeout_s):
     """run /usr/bin/cvc5 on an SMT-LIB text; returns 'unsat' | 'sat' | 'unknown'"""
     exe = '/usr/bin/cvc5'
@@ -107,6 +219,19 @@ def discharge(ob, budget_s=60.0, use_cvc5=True, cross=False):
     except Exception:
         pass
     ring_done = res['status'] == 'unsat'
+    # 1a. definitional substitution + linear span of the hypothesis equalities
+    if not ring_done and len(ob.hyps) <= 60:
+        try:
+            if ring_subst_decides(ob.hyps, ob.goal):
+                tried.append('ring-subst')
+                res.update(status='unsat', backend='ring-subst')
+                if not cross:
+                    res['time'] = time.time() - t0
+                    res['tried'] = tried
+                    return res
+                ring_done = True
+        except Exception:
+            pass
     # 1b. relaxation: without the witness facts (sqrt/trig axioms).  unsat here is unsat with them.
     if not ring_done and getattr(ob, 'light', None) is not None and len(ob.light) < len(ob.hyps):
         tried.append('z3-nofacts')
